@@ -48,6 +48,9 @@ func (x *Exec) evalClauseBool(c *Clause, env *Env, st *State) *Term {
 	if c.Expr == nil {
 		unsupportedf("clause %s has no expression (overlay not loaded?)", c.GoName)
 	}
+	if c.Unbound {
+		return TTrue
+	}
 	e2 := *env
 	e2.st = st
 	e2.info = x.eng.infoFor(c)
